@@ -120,7 +120,12 @@ def check_raise_args(ctx):
         if key in seen:
             continue
         seen.add(key)
-        in_gate = p.outcome.frame == t.gate.qual
+        gate_region = t.__dict__.get('_gate_region')
+        if gate_region is None:
+            gate_region = set(prog.region(t.gate, stop=(
+                enf.qual, POLICY + '.Enforcer.load_rules')))
+            t._gate_region = gate_region
+        in_gate = p.outcome.frame in gate_region
         if isinstance(e, ast.Call) and U(e.func) == 'exc':
             n += 1
             # caller's class with caller's extra arguments, when exc truthy
